@@ -20,7 +20,7 @@ type gen struct {
 }
 
 var allLeafKinds = []string{"base", "base", "plain", "retry", "fb", "retryfb", "func", "func", "func"}
-var payKinds = []string{"int", "str", "float", "map", "slice", "ptr", "struct", "nil"}
+var payKinds = []string{"int", "str", "float", "map", "slice", "ptr", "struct", "nil", "nilptr", "nilmap", "nilslice"}
 var failKinds = []string{"sentinel", "wrapped", "custom", "wrapcustom"}
 var actionAlphabet = []string{"default", "", "a", "ab", "b"}
 
@@ -1025,7 +1025,8 @@ func (g *gen) anyNode(action string) *NodeSpec {
 func genC18(prop, tier string, r *rand.Rand) *Scn {
 	g := newGen(prop, tier, r)
 	g.failP = 0
-	action := pick(r, []string{"", "", "default", "a", "b"})
+	// custom actions include blank-looking ones: only the empty action is normalised
+	action := pick(r, []string{"", "", "", "default", "a", "b", " ", "\t\n", " a"})
 	n := g.anyNode(action)
 	x := n.ID
 	if g.sc.Nodes[g.sc.Root].Kind == "flow" {
@@ -1327,8 +1328,13 @@ func genC20(prop, tier string, r *rand.Rand) *Scn {
 		if at%10000 == 0 {
 			at++
 		}
-		g.sc.Ctx.Kind = "cancel"
-		g.sc.Canceller = &Canceller{Kind: "time", AtUs: at}
+		if r.IntN(2) == 0 {
+			g.sc.Ctx.Kind = "cancel"
+			g.sc.Canceller = &Canceller{Kind: "time", AtUs: at}
+		} else {
+			// the same instant reached by a deadline (context.WithDeadline) instead of cancel()
+			g.sc.Ctx = CtxSpec{Kind: "deadline", DeadlineUs: at}
+		}
 	}
 	return g.sc
 }
@@ -1372,7 +1378,24 @@ func genC11(prop, tier string, r *rand.Rand) *Scn {
 		}
 	}
 	g.sc.Ctx.Kind = "cancel"
-	switch r.IntN(6) {
+	switch r.IntN(7) {
+	case 6:
+		// a deadline at an off-grid instant of the first simulated second (or hour, with 1 h waits)
+		at := int64(1000 * (1 + r.IntN(200)))
+		if wait >= 3600000 && r.IntN(2) == 0 {
+			at = int64(1000 * (1 + r.IntN(3000000)))
+		}
+		if at%10000 == 0 {
+			at++
+		}
+		g.sc.Ctx = CtxSpec{Kind: "deadline", DeadlineUs: at}
+		if r.IntN(2) == 0 { // give the deadline something to land in
+			for i := range n.Visits[0].Items {
+				for a := range n.Visits[0].Items[i].Exec {
+					n.Visits[0].Items[i].Exec[a].SleepMs = 10 * r.IntN(8)
+				}
+			}
+		}
 	case 0:
 		g.sc.Ctx.Kind = "precancel"
 	case 1, 2:
